@@ -539,3 +539,51 @@ Qed.
 
 Theorem budget_def : forall src c, budget src c = Nat.max (min_budget src) (c_num_retries c).
 Proof. reflexivity. Qed.
+
+(* ---------- retry(): admission against the Retries resource ---------- *)
+Theorem retry_threshold : forall src c code why s n,
+  0 < c_max_retries c -> retry s = Some (S n) -> retry_check c code why = true -> 0 <= rc s -> reserved s = false ->
+  reset_guarded src = true ->
+  let '(s', o, r) := rs_retry src c code why s in
+  (rc s < c_max_retries c -> r = RShould /\ rc s' = rc s + 1 /\ reserved s' = true) /\
+  (c_max_retries c <= rc s -> r = ROver /\ rc s' = rc s /\ reserved s' = false).
+Proof.
+  intros src c code why s n Hm Hr Hc H0 Hres Hg. unfold rs_retry, rs_reset. rewrite Hg. unfold when. rewrite Hres.
+  rewrite Hr, Hc. cbn [negb].
+  unfold can_create. cbn [rc]. change (rc (s <| retry := Some n |>)) with (rc s).
+  assert (E0 : (c_max_retries c =? 0) = false) by (apply Z.eqb_neq; lia).
+  assert (E1 : (rc s <? 0) = false) by (apply Z.ltb_ge; lia).
+  rewrite E0, E1. cbn [orb].
+  destruct (rc s <? c_max_retries c) eqn:E2; cbn [negb].
+  - apply Z.ltb_lt in E2. unfold res_inc. rewrite E0. cbn. split; [intros _; auto|intros; lia].
+  - apply Z.ltb_ge in E2. cbn. split; [intros; lia|intros _; auto].
+Qed.
+
+Theorem retry_should_spec : forall src c code why s,
+  let '(s', _, r) := rs_retry src c code why s in
+  r = RShould -> retry_check c code why = true /\ exists n, retry s = Some (S n) /\ retry s' = Some n.
+Proof.
+  intros src c code why s. unfold rs_retry.
+  assert (Hk : retry (fst (rs_reset src c s)) = retry s).
+  { unfold rs_reset. destruct (reset_guarded src).
+    - unfold when. destruct (reserved s); auto. unfold aseq, res_dec, upd. destruct (c_max_retries c =? 0); reflexivity.
+    - unfold res_dec. destruct (c_max_retries c =? 0); reflexivity. }
+  destruct (rs_reset src c s) as [s1 o1]. cbn [fst] in Hk.
+  destruct (retry s1) as [[|n]|] eqn:E; try discriminate.
+  destruct (negb (retry_check c code why)) eqn:Ec; [discriminate|].
+  destruct (negb (can_create c (s1 <| retry := Some n |>))); [discriminate|].
+  unfold res_inc. destruct (c_max_retries c =? 0); intros _; (split; [now apply negb_false_iff in Ec|exists n; rewrite <- Hk; auto]).
+Qed.
+
+Theorem global_timeout_not_retried : forall src c s,
+  resp_started s = false ->
+  let '(s', _) := on_upstream_reset src c RsGlobalTimeout s in setup_retry s' = setup_retry s /\ direct s' = true.
+Proof.
+  intros src c s Hs. unfold on_upstream_reset. cbn [reason_eqb negb andb]. unfold aseq.
+  assert (Hc : resp_started (fst (clean_up src c s)) = false /\ setup_retry (fst (clean_up src c s)) = setup_retry s).
+  { unfold clean_up, aseq, when, upd. destruct (retry s); cbn [fst snd]; auto.
+    unfold rs_reset. destruct (reset_guarded src).
+    - unfold when. destruct (reserved s); cbn [fst snd]; auto. unfold aseq, res_dec, upd. destruct (c_max_retries c =? 0); cbn; auto.
+    - unfold res_dec. destruct (c_max_retries c =? 0); cbn; auto. }
+  destruct (clean_up src c s) as [s1 o1]. cbn [fst] in Hc. destruct Hc as [Hc1 Hc2]. unfold ite. rewrite Hc1. cbn. auto.
+Qed.
